@@ -100,7 +100,9 @@ class C20(Prop):
                            "as_list": t.draw(2) == 0, "omit_headers_key": t.draw(5) == 0, "class_based": t.draw(4) == 0,
                            "headers_as_generator": t.draw(4) == 0, "reused_buffer": t.draw(4) == 0,
                            # an ASGI app that uses the zero-copy extension itself (when offered): (seek position, offset, count) per message
-                           "zc": t.choice([None, None, [(7, None, None)], [(0, 100, 50), (3, None, 20)], [(40, None, 10), (0, None, None)]]),
+                           "zc": t.choice([None, None, [(7, None, None)], [(0, 100, 50), (3, None, 20)], [(40, None, 10), (0, None, None)],
+                                           # pos None = no seek before this message: it continues where the previous one stopped
+                                           [(0, None, 30), (None, None, 50), (None, None, None)], [(5, 200, 10), (None, None, 25)]]),
                            # PEP 3333: start_response may be called again with exc_info before any body was sent
                            "restart": t.choice([None, None, None, {"status": 500, "headers": [("Content-Type", "text/plain"), ("X-Error", "1")]},
                                                 {"status": 503, "headers": [("Set-Cookie", "err=1"), ("Retry-After", "5")]}])}
@@ -114,6 +116,10 @@ class C20(Prop):
         plan["edit"] = t.choice([("x-edited", "yes"), ("x-a", "overridden"), ("cache-control", "no-store")])
         # a history: the same (bare / wrapped) application objects serve a second, identical request; on ASGI the two may overlap
         plan["repeat"] = t.weighted([(4, None), (1, "sequential"), (1, "concurrent")])
+        # the request carries a body nobody reads (on ASGI it arrives in 1..3 messages, possibly while the response is under way)
+        plan["post"] = {"size": t.choice([1, 10, 5000]), "pieces": 1 + t.draw(3), "delay": t.choice([0.0, 0.0, 0.1])} if t.draw(6) == 0 else None
+        # the receive channel has nothing to offer after the request (raises when asked again)
+        plan["recv_raises"] = t.draw(8) == 0
         return plan
 
     def describe(self, plan, variant=None):
@@ -207,7 +213,8 @@ class C20(Prop):
                         fd = os.open(self.fs.path("m/mid.bin"), os.O_RDONLY)
                         try:
                             for pos, off, cnt in raw["zc"]:
-                                os.lseek(fd, pos, os.SEEK_SET)      # the descriptor's own position matters when no offset is given
+                                if pos is not None:
+                                    os.lseek(fd, pos, os.SEEK_SET)      # the descriptor's own position matters when no offset is given
                                 m = {"type": "http.response.zerocopysend", "file": fd, "more_body": True}
                                 if off is not None:
                                     m["offset"] = off
@@ -249,7 +256,18 @@ class C20(Prop):
         headers = [("host", "example.org")]
         if plan["range"]:
             headers.append(("range", plan["range"]))
-        req = AbstractRequest(plan["method"], "/p", headers=headers, body=b"")
+        post = plan.get("post")
+        script = None
+        if post and plan["method"] == "GET":
+            pbody = b"q" * post["size"]
+            headers += [("content-type", "application/octet-stream"), ("content-length", str(len(pbody)))]
+            req = AbstractRequest("POST", "/p", headers=headers, body=pbody)
+            k = min(post["pieces"], len(pbody))
+            cuts = [len(pbody) * i // k for i in range(k + 1)]
+            script = [{"type": "http.request", "body": pbody[a:b], "more_body": i < k - 1, "delay": post["delay"] if i else 0.0} for i, (a, b) in enumerate(zip(cuts, cuts[1:]))]
+            ctx.probe("unread_request_body")
+        else:
+            req = AbstractRequest(plan["method"], "/p", headers=headers, body=b"")
         random.seed(777)
         out = {"counter": counter}
         if plan["iface"] == "wsgi":
@@ -279,7 +297,7 @@ class C20(Prop):
         lats = {"fast": (0.0,), "mixed": (0.0, 0.0, 0.2, 1.0)}[plan["lat"]]
 
         async def scenario(loop):
-            peer = AsgiHttpPeer(loop, ctx, ctx.sched, req, zerocopy=plan["zerocopy"], send_lats=lats, surface="asgi-%s" % ("wrapped" if wrapped else "bare"))
+            peer = AsgiHttpPeer(loop, ctx, ctx.sched, req, script, zerocopy=plan["zerocopy"], send_lats=lats, recv_raises_after_script=plan.get("recv_raises", False), surface="asgi-%s" % ("wrapped" if wrapped else "bare"))
             app = self._build(plan, "asgi", wrapped, counter, boom)
 
             async def one(p):
@@ -293,7 +311,7 @@ class C20(Prop):
 
             second = None
             if plan.get("repeat") == "concurrent":
-                peer2 = AsgiHttpPeer(loop, ctx, ctx.sched, req, zerocopy=plan["zerocopy"], send_lats=lats, surface="asgi-%s-2nd" % ("wrapped" if wrapped else "bare"))
+                peer2 = AsgiHttpPeer(loop, ctx, ctx.sched, req, script, zerocopy=plan["zerocopy"], send_lats=lats, recv_raises_after_script=plan.get("recv_raises", False), surface="asgi-%s-2nd" % ("wrapped" if wrapped else "bare"))
                 t1, t2 = loop.create_task(one(peer), name="first"), loop.create_task(one(peer2), name="second")
                 await asyncio.wait([t1, t2])
                 exc, exc2 = t1.result(), t2.result()
@@ -302,7 +320,7 @@ class C20(Prop):
                 exc = await one(peer)
                 if plan.get("repeat") == "sequential":
                     random.seed(777)
-                    peer2 = AsgiHttpPeer(loop, ctx, ctx.sched, req, zerocopy=plan["zerocopy"], send_lats=lats, surface="asgi-%s-2nd" % ("wrapped" if wrapped else "bare"))
+                    peer2 = AsgiHttpPeer(loop, ctx, ctx.sched, req, script, zerocopy=plan["zerocopy"], send_lats=lats, recv_raises_after_script=plan.get("recv_raises", False), surface="asgi-%s-2nd" % ("wrapped" if wrapped else "bare"))
                     second = (peer2, await one(peer2))
             await asyncio.sleep(0.01)
             res = {"status": peer.status, "headers": normalise(peer.header_list()), "body": peer.body, "exc": exc, "complete": peer.complete}
